@@ -37,13 +37,14 @@ Inductive hs_kind := HsOk | HsFail.
 
 Record toracles := {
   o_clear : oracles;
-  o_trace_tls : bytes -> bytes -> bytes -> bool -> bytes -> N -> bytes;
+  o_trace_tls : bytes -> option bytes -> bytes -> bytes -> bool -> bytes -> N -> bytes;
   o_certfile : bool;
   o_tlsinit : bool;
   o_eat : nat
 }.
 
-(** the oracles of Model/Session.v as seen in clear text / inside TLS: only the trace header differs *)
+(** the oracles of Model/Session.v as seen in clear text / inside TLS: the trace header differs, and tls_verify() has a TLS
+    session to ask for a client certificate only inside TLS *)
 Definition orc (o : toracles) (intls : bool) : oracles :=
   {| o_helo := o_helo (o_clear o); o_addr := o_addr (o_clear o); o_ext := o_ext (o_clear o);
      o_relay := o_relay (o_clear o); o_mx := o_mx (o_clear o); o_qq := o_qq (o_clear o);
@@ -52,7 +53,9 @@ Definition orc (o : toracles) (intls : bool) : oracles :=
      o_authperm := o_authperm (o_clear o); o_auth := o_auth (o_clear o);
      o_trace := if intls then o_trace_tls o else o_trace (o_clear o);
      o_submission := o_submission (o_clear o); o_subm_date := o_subm_date (o_clear o);
-     o_subm_stamp := o_subm_stamp (o_clear o); o_msgidhost := o_msgidhost (o_clear o) |}.
+     o_subm_stamp := o_subm_stamp (o_clear o); o_msgidhost := o_msgidhost (o_clear o);
+     (* xmitstat.ssl is NULL in clear text: tls_verify() returns 0 at once there; inside TLS its check is the oracle *)
+     o_tls := intls; o_tlsverify := o_tlsverify (o_clear o) |}.
 
 (** the client's script *)
 Record script := {
